@@ -520,9 +520,15 @@ class AstToDjangoQVisitor(visitor.NodeVisitor):
         if isinstance(node, (Q, Exists)):
             return node
 
-        if isinstance(node, F):
+        if isinstance(node, F) and DJANGO_LT_4:
             # A bare (boolean) field: Django cannot filter on the expression itself.
             return Q(**{node.name: True})
+
+        if isinstance(node, F):
+            # As a lookup expression, not as `Q(name=True)`: a field called
+            # `_negated` or `_connector` would be taken for an argument of `Q`
+            # itself, and negating a keyword lookup also selects the NULL rows.
+            node = lookups.Exact(node, True)
 
         if not DJANGO_LT_4:
             return Q(node)
